@@ -2,6 +2,23 @@
 (* Narrow class predicates for recorded, unrepaired defects (known_findings.json).  They are used
    only to attribute randomly generated instances of a *listed* defect; a failing case outside every
    listed class is reported as a VIOLATION.  Ideally empty. *)
-EXTENDS Dom, Api
-KFClass(prop, c) == ""
+EXTENDS Render, Props
+
+ModelAgrees(c, run) ==
+  LET m == RenderDoc(c.doms[run.d], run.cfg, run.w) IN
+  m.k = run.res.k /\ (m.k = "ok" => m.lines = run.res.lines)
+
+\* C12 "pre-cont-tag": on a force-wrapped <pre> line, characters typed before the overflow was detected
+\* (and text that follows a flushed word) keep the Preformat(false) tag although they are laid out on a
+\* continuation piece.  Class: everything else about the block is right, only the strict continuation
+\* clause fails, and it fails exactly as the recorded algorithm (Wrap!AddChar's tag bookkeeping) predicts.
+KF_C12(c) ==
+  IF \A i \in 1..Len(c.runs) :
+       LET run == c.runs[i] IN
+       IsOk(run) => LET p == C12Parts(c, run) IN p.core /\ p.tagsWeak /\ (p.tagsStrict \/ ModelAgrees(c, run))
+  THEN "pre-cont-tag" ELSE ""
+
+KFClass(prop, c) ==
+  CASE prop = "C12" -> KF_C12(c)
+    [] OTHER -> ""
 =============================================================================
